@@ -209,13 +209,17 @@ impl StdAlpha {
 }
 
 /// Seeds shared by the engine-level properties (action prefixes from the initial deployment).
+pub fn px_at_spot() -> Act {
+    Act::PxRel { v: 0, num: 1, den: 1 }
+}
 pub fn seed_liquidatable() -> Vec<Act> {
-    // alice long M, bob short L, +20 min: alice is deep under water
+    // alice long M, bob short 40x10 (price 10.5 -> 3.9), +20 min, oracle follows: alice is deep under water
     vec![
         Act::open("alice", true, SIZE_M.0, SIZE_M.1),
         Act::blk(15),
-        Act::open("bob", false, SIZE_L.0, SIZE_L.1),
+        Act::open("bob", false, 40 * D, 10 * D),
         Act::blk(1200),
+        px_at_spot(),
     ]
 }
 pub fn seed_liquidatable_mirror() -> Vec<Act> {
@@ -224,6 +228,26 @@ pub fn seed_liquidatable_mirror() -> Vec<Act> {
         Act::blk(15),
         Act::open("bob", true, SIZE_L.0, SIZE_L.1),
         Act::blk(1200),
+        px_at_spot(),
+    ]
+}
+/// alice long 25x10, price falls ~7%: margin ratio between 0 and maintenance (partial-liquidation territory)
+pub fn seed_slightly_under() -> Vec<Act> {
+    vec![
+        Act::open("alice", true, 25 * D, 10 * D),
+        Act::blk(15),
+        Act::open("bob", false, 45 * D, 1 * D),
+        Act::blk(1200),
+        px_at_spot(),
+    ]
+}
+pub fn seed_slightly_under_mirror() -> Vec<Act> {
+    vec![
+        Act::open("alice", false, 20 * D, 10 * D),
+        Act::blk(15),
+        Act::open("bob", true, 15 * D, 1 * D),
+        Act::blk(1200),
+        px_at_spot(),
     ]
 }
 pub fn seed_funded() -> Vec<Act> {
